@@ -30,27 +30,29 @@ type LoopSpec struct {
 }
 
 type Contract struct {
-	Key         string
-	PkgPath     string
-	Recv        string
-	RecvName    string
-	Name        string
-	ParamNames  []string
-	ResultNames []string
-	Tags        []string
-	Requires    []*Clause
-	Ensures     []*Clause
-	Modifies    []*Clause
-	Asserts     map[string][]*Clause // "pre:<callee>@k" style program-point assertions: point -> clauses
-	Loops       map[int]*LoopSpec
-	Trusted     bool
-	TrustedWhy  string
-	Pure        bool
-	Flags       map[string]bool
-	Implements  map[string]string // function-typed parameter -> funcspec name
-	File        string
-	Line        int
-	External    bool // from /verif/stdlib: assumed contract of a dependency
+	Key          string
+	PkgPath      string
+	Recv         string
+	RecvName     string
+	Name         string
+	ParamNames   []string
+	ResultNames  []string
+	Tags         []string
+	Requires     []*Clause
+	Ensures      []*Clause
+	Modifies     []*Clause
+	Asserts      map[string][]*Clause // "pre:<callee>@k" style program-point assertions: point -> clauses
+	Loops        map[int]*LoopSpec
+	Trusted      bool
+	TrustedWhy   string
+	Pure         bool
+	Flags        map[string]bool
+	Implements   map[string]string // function-typed parameter -> funcspec name ("self": this function literal implements the spec)
+	Captured     []*Clause         // closure contracts: facts about the captured variables, proved where the literal is passed on
+	CapturedPost []*Clause         // closure contracts: transitive two-state facts about the captured variables the literal assigns
+	File         string
+	Line         int
+	External     bool // from /verif/stdlib: assumed contract of a dependency
 }
 
 type SpecFunc struct {
@@ -421,6 +423,22 @@ func (sp *Specs) LoadSpecFile(path string, pkgPath string, external bool) error 
 				return fail(fmt.Errorf("%s needs a name", word))
 			}
 			sp.Axioms = append(sp.Axioms, &Axiom{Name: cl.Label, PkgPath: pkgPath, E: cl.E, Src: cl.Src, File: path, Tags: cl.Tags, IsLemma: word == "lemma"})
+		case "captured", "captured-post":
+			// captured label: expr  - in the contract of a function literal: a fact about its captured variables
+			// (which must not be assigned after the literal was created); proved where the literal is handed to
+			// a callee, assumed when the literal's body is verified
+			if cur == nil {
+				return fail(fmt.Errorf("captured outside a func block"))
+			}
+			cl, err := parseClause(word, rest, path, ln)
+			if err != nil {
+				return fail(err)
+			}
+			if word == "captured-post" {
+				cur.CapturedPost = append(cur.CapturedPost, cl)
+			} else {
+				cur.Captured = append(cur.Captured, cl)
+			}
 		case "requires", "ensures", "invariant", "decreases", "modifies":
 			if cur == nil {
 				return fail(fmt.Errorf("%s outside a func block", word))
